@@ -15,7 +15,7 @@ func main() {
 		pkgs := gombokrun.Pack(gombokrun.ModeLaws, shapes, gombokrun.PackSize(r.Thorough()))
 		gombokrun.Register(r, gombokrun.ModeLaws, pkgs)
 		r.Post = gombokrun.Post(gombokrun.ModeLaws)
-		r.Rule = "programs: every struct declaration of the grammar (field kind x visibility x tag; one-field, two-field (thorough), field counts, generic constraint forms, grouped fields, special field names, user-written members) under every annotation set, packed " +
+		r.Rule = "programs: every struct declaration of the grammar (field kind x visibility x tag; one-field, two-field (thorough), field counts, generic constraint forms, grouped fields, special field names, user-written members, field types from user packages named like the packages the generated code imports - option/as/fp/fmt/json/http, one declaration per package -, two files using one package name for two packages) under every annotation set, packed " +
 			"20 (quick) / 40 (thorough) per scratch package; one scenario = one package: declarations -> gombok from the tree under test (GOPACKAGE/cwd as go generate sets them) -> go build (-gcflags=-e) together with a generated law test in the same package -> run. " +
 			"A struct whose output does not compile is blamed by error position (bisection as fallback), confirmed in a package of its own, reported as compile/<shape>, removed, and the rest is law-checked. " +
 			"inputs: for every struct all combinations of two position-tagged values per field (up to 6 fields; beyond that all-first, all-second and every one-hot deviation from both). " +
@@ -50,7 +50,7 @@ func main() {
 			"@fp.GetterPubField, @fp.WithPubField, @fp.Deref, @fp.String(useShow), @fp.RequiredArgsConstructor: not named by the statement",
 			"String(): only compiled, its text is not specified",
 			"struct tags containing a back quote cannot be written in Go source; tags are {none, json, fp:String.Exclude, both}",
-			"field types from a package whose name collides with an import alias of the generated file (import aliasing in genfp importSet) are exercised only through time, image, fmt",
+			"colliding package names are crossed with a companion fp.Option field and the four visibilities only (not with every field kind); collisions with the derive generator's helper packages (seq, hlist, product, ...) belong to C08 and appear here as controls",
 		}
 	})
 }
